@@ -332,6 +332,14 @@ class MetadorDataset(MetadorNode):
         self._guard_acl(NodeAcl.skel_only, "__contains__")
         return val in self.__wrapped__
 
+    def __reversed__(self):
+        self._guard_acl(NodeAcl.skel_only, "__reversed__")
+        return reversed(self.__wrapped__)
+
+    def __bytes__(self):
+        self._guard_acl(NodeAcl.skel_only, "__bytes__")
+        return bytes(self.__wrapped__)
+
     # prevent mutating method calls of node is marked as read_only
 
     def __setitem__(self, *args, **kwargs):
